@@ -127,6 +127,10 @@ pub enum Step {
     /// consume the rest with `skip(k)` / `step_by(k + 1)` and collect (drains and owning iterators)
     Skip(u8),
     StepBy(u8),
+    /// consume the rest through internal iteration from the back: `rfold` / `rev().for_each(..)`
+    RFold,
+    /// `rev().last()` resp. `try_fold`-style `find` from the front (`position`), consuming
+    RevLast,
 }
 
 #[derive(Debug, Clone, Copy, PartialEq, Eq, Hash, Serialize, Deserialize)]
@@ -406,6 +410,8 @@ pub fn render_steps(st: &[Step]) -> String {
             Step::RevCollect => "rev".to_string(),
             Step::Skip(k) => format!("skip({k})"),
             Step::StepBy(k) => format!("step_by({})", *k as usize + 1),
+            Step::RFold => "rfold".to_string(),
+            Step::RevLast => "rev().last()".to_string(),
         })
         .collect::<Vec<_>>()
         .join(",")
